@@ -131,39 +131,58 @@ LINK_SHARING_SITES = {
 
 def k10(model: Model, rep: Report, rule: str = "C05.K10"):
     """An operation never receives the link object of another operation, except at the reviewed hand-over."""
-    rep.rule(rule, "operations are told apart by their relation link (K4): no statement stores the link OBJECT held by one operation into another operation "
-                   "(X.relation_link = Y.relation_link), except the reviewed hand-over in decomposed_operations -- a second sharing site makes a nested block equal to its "
-                   "parent (or to a sibling) as a key of the copy lookup, and acquisitions of later siblings lose their registry (index -1)")
-    from .common import syntactic_callers
+    rep.rule(rule, "operations are told apart by their relation link (K4): on no path does a function store the link OBJECT held by one operation into another operation "
+                   "(the stored value evaluates to <other>.relation_link), except the reviewed hand-over in decomposed_operations -- a second sharing site makes a nested "
+                   "block equal to its parent (or to a sibling) as a key of the copy lookup, and acquisitions of later siblings lose their registry (index -1)")
+    from .common import devar, syntactic_callers
     from ..sym import is_private_helper
-    sites = []
+    LINK_ATTRS = ("relation_link", "relation", "_relation")
+    examined = 0
+    seen = set()
     for f in model.all_functions():
         if "structure" not in f.module.relpath and "language" not in f.module.relpath:
             continue
-        for n in ast.walk(f.node):
-            if isinstance(n, ast.Assign) and len(n.targets) == 1 and isinstance(n.targets[0], ast.Attribute) and n.targets[0].attr in ("relation_link", "relation", "_relation") \
-                    and isinstance(n.value, ast.Attribute) and n.value.attr in ("relation_link", "relation", "_relation") \
-                    and ast.unparse(n.value.value) != ast.unparse(n.targets[0].value):
-                sites.append((f, n))
-    rep.floor(f"{rule} link hand-over sites", len(sites), 1)
-    for f, n in sites:
-        owners = [f]
-        if is_private_helper(f):
-            cs, work, seen = [], [f], set()
-            while work:
-                g = work.pop()
-                for c in syntactic_callers(model, g):
-                    if c in seen:
+        if f.kind == "setter" or f.name in ("__init__", "__post_init__"):
+            continue
+        if not any(isinstance(n, ast.Attribute) and isinstance(n.ctx, ast.Store) and n.attr in LINK_ATTRS for n in ast.walk(f.node)):
+            continue
+        if is_private_helper(f) and syntactic_callers(model, f):
+            continue        # read in place at its callers
+        try:
+            ev = Evaluator(model, inline_methods=False)
+            ps = PathEnumerator(ev).function_paths(f, self_cls=f.cls)
+        except Unsupported as e:
+            raise AnalysisError(f"{f.qualname} stores a relation link but is outside the supported fragment: {e}")
+
+        def stores(p):
+            for e in p.events:
+                if e.kind == "store" and e.term[2] in LINK_ATTRS:
+                    yield e
+                if e.kind == "loop":
+                    for bp in e.extra["paths"]:
+                        yield from stores(bp)
+        for p in ps:
+            for e in stores(p):
+                examined += 1
+                tgt, val = e.term[1], devar(e.term[3])
+                if val[0] == "attr" and val[2] in LINK_ATTRS and val[1] != tgt and val[1][0] in ("sym", "attr", "bound"):
+                    # a record that merely CARRIES a link in a field of that name is not an operation: the holder must be (or contain) an operation
+                    holder = ev.type_of(val[1]) if hasattr(ev, "type_of") else None
+                    if holder is not None and not (holder.is_subclass_of("ICircuitOperation") or holder.is_subclass_of("IRelationComponent") or holder.is_subclass_of("IDeclarativeCircuit")):
                         continue
-                    seen.add(c)
-                    (work if is_private_helper(c) else cs).append(c)
-            owners = cs or [f]
-        bad = [o for o in owners if o.qualname not in LINK_SHARING_SITES]
-        rep.check(not bad, rule, f"{f.qualname}[shares a link object]", f"{f.module.relpath}:{n.lineno}", found=ast.unparse(n)[:120],
-                  required="only the reviewed hand-over shares a link object: " + ", ".join(LINK_SHARING_SITES),
-                  what=f"{(bad[0] if bad else f).qualname} gives an operation the very link object another operation holds: wherever the link is what separates two "
-                       "operations (value equality, K4) they now compare and hash equal -- e.g. the first nested block equals its parent in the copy lookup and the "
-                       "acquisitions of later blocks are re-targeted to the wrong circuit", detail="link-sharing")
+                    key = (f.qualname, show(e.term)[:160])
+                    if key in seen:
+                        continue
+                    seen.add(key)
+                    ok = f.qualname in LINK_SHARING_SITES
+                    rep.check(ok, rule, f"{f.qualname}[shares a link object]", f"{f.module.relpath}:{getattr(e.node, 'lineno', f.node.lineno)}", found=show(e.term)[:160],
+                              required="only the reviewed hand-over shares a link object: " + ", ".join(LINK_SHARING_SITES),
+                              what=f"{f.qualname} gives an operation the very link object another operation holds: wherever the link is what separates two "
+                                   "operations (value equality, K4) they now compare and hash equal -- e.g. the first nested block equals its parent in the copy lookup and the "
+                                   "acquisitions of later blocks are re-targeted to the wrong circuit", detail="link-sharing")
+    rep.floor(f"{rule} stores of a relation link examined", examined, 4)
+    if not seen:
+        rep.ok(rule, "structure[link stores]", "src/qce_circuit/structure", found=f"{examined} stores of a relation link, none hands over another operation's link object", required="no sharing outside the reviewed site")
 
 
 # ---------------------------------------------------------------------------------------------
